@@ -201,6 +201,51 @@ def argopt_final_pick(fn: ast.FunctionDef):
     return None
 
 
+def concrete_predicate(fn: ast.FunctionDef, values: list):
+    """the value of a function that is a single  return <comparisons / and / or / not over its parameters and constants>  at the
+    given constant arguments - None when the function is not of that form"""
+    body = [s_ for s_ in fn.body if not (isinstance(s_, ast.Expr) and isinstance(s_.value, ast.Constant))]
+    ps = [a.arg for a in fn.args.args]
+    if len(body) != 1 or not isinstance(body[0], ast.Return) or body[0].value is None or len(values) != len(ps):
+        return None
+    env = dict(zip(ps, values))
+
+    class _No(Exception):
+        pass
+
+    def ev(node):
+        if isinstance(node, ast.BoolOp):
+            vs = [ev(v) for v in node.values]
+            return all(vs) if isinstance(node.op, ast.And) else any(vs)
+        if isinstance(node, ast.UnaryOp) and isinstance(node.op, ast.Not):
+            return not ev(node.operand)
+        if isinstance(node, ast.UnaryOp) and isinstance(node.op, ast.USub):
+            return -ev(node.operand)
+        if isinstance(node, ast.Compare):
+            left = ev(node.left)
+            okc = True
+            for op, r in zip(node.ops, node.comparators):
+                rv = ev(r)
+                table = {ast.Lt: left < rv, ast.LtE: left <= rv, ast.Gt: left > rv, ast.GtE: left >= rv, ast.Eq: left == rv, ast.NotEq: left != rv}
+                if type(op) not in table:
+                    raise _No()
+                okc = okc and table[type(op)]
+                left = rv
+            return okc
+        if isinstance(node, ast.Name) and node.id in env:
+            return env[node.id]
+        if isinstance(node, ast.Constant) and isinstance(node.value, (int, float, bool)):
+            return node.value
+        if isinstance(node, ast.BinOp) and isinstance(node.op, ast.Mult):
+            return ev(node.left) * ev(node.right)
+        raise _No()
+
+    try:
+        return bool(ev(body[0].value)) if isinstance(body[0].value, (ast.BoolOp, ast.Compare, ast.UnaryOp)) else None
+    except _No:
+        return None
+
+
 def reordered_points(v: ast.expr) -> Optional[str]:
     """v is  [p for _, p in sorted(zip(<keys>, POINTS), ...)]  - the list POINTS (a name) reordered, nothing dropped: -> POINTS"""
     good = (isinstance(v, ast.ListComp) and len(v.generators) == 1 and not v.generators[0].ifs and isinstance(v.elt, ast.Name)
